@@ -331,8 +331,9 @@ Definition lazy_common_keys (v : sview) : list string :=
   | m0 :: ms => filter (fun k => forallb (fun m => str_mem k (top_keys_at v (fst m))) ms) (top_keys_at v (fst m0))
   end.
 
+(* set(td.keys(True, True)) of the member at p: default is_leaf, i.e. tensor entries *)
 Definition leaf_paths_at (v : sview) (p : path) : list path :=
-  flat_map (fun ql => match strip p (fst ql) with Some r => [r] | None => [] end) (v_leaves v).
+  flat_map (fun ql => match strip p (fst ql) with Some r => if leaf_ok mask_default (snd ql) then [r] else [] | None => [] end) (v_leaves v).
 
 (* ---- results computed FROM another memoised result (the callee's list), as the method bodies do *)
 Definition item_uid (i : item) : option nat := match i with ILeaf l => Some (l_uid l) | INode u => Some u | _ => None end.
@@ -423,19 +424,22 @@ Definition freshv (v : sview) (m : meth) (args : list arg) (kwargs : list (strin
                                                     && Nat.eqb (List.length (leaf_paths_at v (fst m))) (List.length (leaf_paths_at v (fst m0)))) ms)
                end)
     | MLazyGetStr =>
+        (* _lazy.py:1130: every member is asked in turn; the first member without the entry makes the call return [default];
+           tensors are stacked (a Tensor: never stored), non-tensor entries become a stack OF the members' objects, nested nodes a
+           lazy stack OF the members' node objects; a mixture cannot be stacked *)
         match par env "key" with
         | AStr k =>
-            let hits := flat_map (fun m => match find (fun ql => path_eqb (fst ql) (fst m ++ [k])) (v_leaves v) with
-                                           | Some ql => [([k], snd ql)] | None => [] end) (members v) in
-            match hits with
-            | [] => VTd (flat_map (fun m => match find (fun rn => path_eqb (fst rn) (fst m ++ [k])) (v_nodes v) with
-                                            | Some rn => [(fst rn, i_meta (snd rn))] | None => [] end) (members v))
-                        [] (pins_of [par env "default"])                  (* a lazy stack of the members' nested nodes / the default *)
-            | (_, l) :: _ => match l_kind l with
-                             | KTensor => VTensor                           (* torch.stack: a Tensor, never stored *)
-                             | _ => VList (map entry_ref hits)              (* NonTensorStack of the members' objects *)
-                             end
-            end
+            let per := map (fun m => (find (fun ql => path_eqb (fst ql) (fst m ++ [k])) (v_leaves v),
+                                      find (fun rn => path_eqb (fst rn) (fst m ++ [k])) (v_nodes v))) (members v) in
+            if existsb (fun x => match x with (None, None) => true | _ => false end) per
+            then VTd [] [] (pins_of [par env "default"])
+            else if forallb (fun x => match x with (Some ql, _) => lkind_eqb (l_kind (snd ql)) KTensor | _ => false end) per
+            then VTensor
+            else if forallb (fun x => match x with (Some ql, _) => negb (lkind_eqb (l_kind (snd ql)) KTensor) | _ => false end) per
+            then VList (flat_map (fun x => match x with (Some ql, _) => [([k], ILeaf (snd ql))] | _ => [] end) per)
+            else if forallb (fun x => match x with (None, Some _) => true | _ => false end) per
+            then VTd [] (flat_map (fun x => match x with (_, Some rn) => [(fst rn, INode (i_uid (snd rn)))] | _ => [] end) per) (pins_of [par env "default"])
+            else VRaise
         | _ => VRaise
         end
     end
